@@ -28,29 +28,30 @@ type taskSpec struct {
 
 // Scenario = DAG + scripted outcomes + a plan of harness actions.
 type Scenario struct {
-	tasks         []taskSpec
-	vars          entity.DagVars
-	spec          map[string]string
-	scripts       map[string][]phaseScript // key task/phase -> per attempt
-	execWorkers   int
-	parserWorkers int
-	crashAt       []int // step numbers at which the worker crashes and is restarted
-	closeAt       int   // step number at which Close is issued (-1 = never)
-	cancelAt      int   // step number at which a cancel command is attempted (-1 never)
-	moreCancels   []int // further cancel attempts, as step distances after the previous one
-	retries       int   // number of retry commands the plan may issue
-	continues     int
-	cmdMidFlight  bool // issue retry/continue while other tasks of the instance are in flight
-	badCmds       bool // also issue commands with ineligible / unknown ids
-	faultNth      int  // inject one store failure at the n-th matching call (0 = none)
-	faultMatch    string
-	faultMode     string
-	foreign       bool // populate instances owned by another worker
-	leftBehind    bool // the leader's left-behind sweep races the owner starting the instance
-	wdAges        []int
-	memFaultNth   int
-	wdAt          int  // step at which the clock jumps and an expired sweep races a live run (-1 never)
-	desc          string
+	tasks             []taskSpec
+	vars              entity.DagVars
+	spec              map[string]string
+	scripts           map[string][]phaseScript // key task/phase -> per attempt
+	execWorkers       int
+	parserWorkers     int
+	crashAt           []int // step numbers at which the worker crashes and is restarted
+	closeAt           int   // step number at which Close is issued (-1 = never)
+	cancelAt          int   // step number at which a cancel command is attempted (-1 never)
+	moreCancels       []int // further cancel attempts, as step distances after the previous one
+	retries           int   // number of retry commands the plan may issue
+	continues         int
+	cmdMidFlight      bool // issue retry/continue while other tasks of the instance are in flight
+	badCmds           bool // also issue commands with ineligible / unknown ids
+	faultNth          int  // inject one store failure at the n-th matching call (0 = none)
+	faultMatch        string
+	faultMode         string
+	foreign           bool // populate instances owned by another worker
+	leftBehind        bool // the leader's left-behind sweep races the owner starting the instance
+	wdAges            []int
+	memFaultNth       int
+	restartAfterClose bool
+	wdAt              int // step at which the clock jumps and an expired sweep races a live run (-1 never)
+	desc              string
 }
 
 func (s *Scenario) tmplOf(taskID string) string {
@@ -206,6 +207,29 @@ func genScenario(rng *Rng, kind string) *Scenario {
 		}
 	case "close":
 		s.closeAt = 1 + rng.Intn(30)
+		s.restartAfterClose = rng.Chance(1, 2)
+	case "closefull":
+		// one root and 56 children that are all skipped by a pre-check: the parser worker enqueues more
+		// completion events than its queue (50) holds while it is still pushing; Close arrives then
+		s.tasks = s.tasks[:0]
+		s.tasks = append(s.tasks, taskSpec{id: "t1", action: "A"})
+		for i := 2; i <= 57; i++ {
+			s.tasks = append(s.tasks, taskSpec{id: fmt.Sprintf("t%d", i), action: "A", deps: []string{"t1"},
+				pre: entity.PreChecks{"c": {Act: entity.ActiveActionSkip, Conditions: []entity.TaskCondition{{Source: entity.TaskConditionSourceVars, Key: "v", Op: entity.OperatorIn, Values: []string{"1", "2"}}}}}})
+		}
+		s.scripts = map[string][]phaseScript{}
+		s.closeAt = 55 + rng.Intn(12)
+		s.retries, s.continues = 0, 0
+	case "closepre":
+		// Close while tasks complete whose successors have a pre-check that fires (skip / block)
+		s.closeAt = 1 + rng.Intn(20)
+		s.restartAfterClose = rng.Chance(1, 2)
+		for i := range s.tasks {
+			if i > 0 && rng.Chance(2, 3) {
+				act := []entity.ActiveAction{entity.ActiveActionSkip, entity.ActiveActionBlock}[rng.Intn(2)]
+				s.tasks[i].pre = entity.PreChecks{"c": {Act: act, Conditions: []entity.TaskCondition{{Source: entity.TaskConditionSourceVars, Key: "v", Op: entity.OperatorIn, Values: []string{"1", "2"}}}}}
+			}
+		}
 	case "cmdrace":
 		s.cmdMidFlight = true
 		s.retries = 2
@@ -644,7 +668,18 @@ func runScenario(w *World, rng *Rng, s *Scenario, maxSteps int) *runResult {
 		}
 		e.markQuiescent()
 		if closed {
-			break
+			if !s.restartAfterClose {
+				break
+			}
+			// the next start resumes the unfinished instances exactly as after a crash
+			s.restartAfterClose = false
+			s.closeAt = -1
+			closed = false
+			e.crash()
+			must(kp.VerifHeartBeat())
+			e.startIncarnation(s.execWorkers, s.parserWorkers, 30*time.Second)
+			e.settle()
+			continue
 		}
 		// decide what the environment does next
 		switch {
